@@ -2,6 +2,7 @@ package props
 
 import (
 	"fmt"
+	"os"
 	"runtime"
 	"strings"
 	"testing"
@@ -49,6 +50,8 @@ func c15Streams(binary, big bool) []c15Stream {
 	add("set-then-quit", o(wire.Cmd{Kind: wire.Set, Key: "ka", Value: val}), o(wire.Cmd{Kind: wire.Quit}), o(wire.Cmd{Kind: wire.Set, Key: "ka", Value: []byte("after quit")}))
 	if binary {
 		add("gat", o(wire.Cmd{Kind: wire.Gat, Key: "ka", Exptime: 100}))
+		add("gete", o(wire.Cmd{Kind: wire.GetE, Keys: []string{"ka"}}))
+		add("gete-multi", o(wire.Cmd{Kind: wire.GetE, Keys: []string{"kb", "kn", "ka"}, NoopEnd: true}))
 		add("quiet-get-batch-noop", o(wire.Cmd{Kind: wire.Get, Keys: []string{"ka", "kn", "kb"}, NoopEnd: true}))
 		add("quiet-get-batch-get", o(wire.Cmd{Kind: wire.Get, Keys: []string{"kb", "kn", "ka"}}))
 		add("quiet-sets", o(wire.Cmd{Kind: wire.Set, Key: "ka", Value: val, Quiet: true}), o(wire.Cmd{Kind: wire.Add, Key: "ka", Value: val, Quiet: true}), o(wire.Cmd{Kind: wire.Noop}))
@@ -108,11 +111,12 @@ func runC15Overlap(c c15Case, st *stack.Stack, stream []byte, baseL1, baseL2, ba
 			time.Sleep(100 * time.Microsecond)
 		}
 	}
+	per := c15PerClient(st) // backend connections per client on L1
 	a1, a2 := accepts()
 	connA := st.Dial(c.Port)
-	waitAcc(a1+1, a2+1)
+	waitAcc(a1+per, a2+1)
 	connB := st.Dial(c.Port)
-	waitAcc(a1+2, a2+2)
+	waitAcc(a1+2*per, a2+2)
 	if c.Prefix > 0 {
 		connA.Write(stream[:c.Prefix])
 	}
@@ -129,12 +133,12 @@ func runC15Overlap(c c15Case, st *stack.Stack, stream []byte, baseL1, baseL2, ba
 		if st.L2 != nil {
 			wantL2 = baseL2 + 1
 		}
-		if l1 == baseL1+1 && l2 == wantL2 {
+		if l1 == baseL1+per && l2 == wantL2 {
 			break
 		}
 		if time.Now().After(deadline) {
 			connB.Close()
-			return fmt.Sprintf("with a second, idle client connected: the bound after client A closed at byte %d, L1 has %d open backend connections (want %d: only B's), L2 %d (want %d)", c.Prefix, l1, baseL1+1, l2, wantL2)
+			return fmt.Sprintf("with a second, idle client connected: the bound after client A closed at byte %d, L1 has %d open backend connections (want %d: only B's), L2 %d (want %d)", c.Prefix, l1, baseL1+per, l2, wantL2)
 		}
 		time.Sleep(200 * time.Microsecond)
 	}
@@ -155,6 +159,15 @@ func runC15Overlap(c c15Case, st *stack.Stack, stream []byte, baseL1, baseL2, ba
 	return ""
 }
 
+// c15PerClient: the number of L1 backend connections the server opens per
+// client (the cluster handler connects to each of its two node names).
+func c15PerClient(st *stack.Stack) int {
+	if st.Cfg.L1 == "cluster" {
+		return 2
+	}
+	return 1
+}
+
 func runC15(c c15Case, st *stack.Stack, stream []byte, baseL1, baseL2, baseG int) string {
 	if c.Overlap {
 		return runC15Overlap(c, st, stream, baseL1, baseL2, baseG)
@@ -167,7 +180,7 @@ func runC15(c c15Case, st *stack.Stack, stream []byte, baseL1, baseL2, baseG int
 	// the server opens this client's backend connections when it accepts the
 	// client; wait for that, otherwise "everything released" would be
 	// trivially true before the server has even noticed the connection
-	for i := 0; i < 20000 && (st.L1.Accepts() < a1+1 || (st.L2 != nil && st.L2.Accepts() < a2+1)); i++ {
+	for i := 0; i < 20000 && (st.L1.Accepts() < a1+c15PerClient(st) || (st.L2 != nil && st.L2.Accepts() < a2+1)); i++ {
 		time.Sleep(100 * time.Microsecond)
 	}
 	if c.Prefix > 0 {
@@ -257,6 +270,8 @@ func c15Configs() []c10Cfg {
 			)
 		}
 	}
+	// the cluster proxy's shape (app/memcached_cluster_proxy.go): L1Only over the cluster handler
+	out = append(out, c10Cfg{stack.Config{Shape: "l1only", Lock: "nolock", L1: "cluster", L2: "-"}, 0})
 	return out
 }
 
@@ -287,6 +302,9 @@ func TestC15(t *testing.T) {
 	idx := 0
 	cases := 0
 	for _, cc := range c15Configs() {
+		if only := os.Getenv("VERIF_C15_ONLY"); only != "" && cc.Cfg.L1 != only { // development aid
+			continue
+		}
 		for _, binary := range []bool{true, false} {
 			for _, s := range c15Streams(binary, cc.Cfg.L1 == "chunked") {
 				idx++
